@@ -1,6 +1,6 @@
 """C12 -- Ed25519 point addition and doubling compute the Edwards group law."""
 import z3
-from symx.core import Ctx, SymInt, T, model_int
+from symx.core import Ctx, SymInt, T, model_int, EngineUnsupported
 from symx import loader
 from symx.poly import PolyInt, SE, sympy_to_z3, congruence_witness
 
@@ -324,6 +324,87 @@ def job_completeness(J):
              oracle="kernels", args=dict(x1=1, y1=1, z1=1, x2=1, y2=1, z2=1))
 
 
+LADDER_BITS = 7
+
+
+def _ladder_bounded(J, E, bits):
+    """an iterative ladder has no recursive call to hang an induction hypothesis on; what remains within reach is the
+    bounded statement: for every 0 <= n < 2^bits and an abstract point P of order L (k = its discrete log), the real
+    function -- its loop unrolled by the explorer, the curve kernels replaced by their contracts -- returns [n]P and never
+    hands the dedicated addition two operands whose difference has order 1, 2 or 4.  n >= 2^bits is outside."""
+    from symx.edabs import Coord
+    from symx.core import Flags
+    L, Q = E.L, E.Q
+
+    class Abs(tuple):
+        pass
+
+    def mk(k):
+        cs = [Coord(None, i) for i in range(4)]
+        a = Abs(cs)
+        for c in cs:
+            c.owner = a
+        a.k = k
+        return a
+
+    def kof(pt):
+        if hasattr(pt, "k"):
+            return pt.k
+        t = tuple(pt)
+        if len(t) == 4 and all(isinstance(c, Coord) for c in t) and all(c.owner is t[0].owner and c.sign == 1 and c.idx == i for i, c in enumerate(t)):
+            return t[0].owner.k
+        if len(t) == 4 and all(isinstance(c, int) for c in t) and t[0] % Q == 0 and (t[1] - t[2]) % Q == 0 and t[2] % Q != 0:
+            return z3.IntVal(0)                                  # the neutral element (0 : Y : Y : 0)
+        raise EngineUnsupported("ladder operand that is neither an abstract point nor the neutral element")
+
+    def h(ctx):
+        k = ctx.fresh("k")
+        n = SymInt(ctx.fresh("n", 0, 2 ** bits - 1))
+        ctx.assume(k % L != 0)
+        P = mk(k)
+        real = E.scalarmult_element
+        saved = (E.double_element, E._add_elements_nonunfied, E.add_elements, E.xform_affine_to_extended)
+
+        def dbl(pt):
+            return mk(2 * kof(pt))
+
+        def ded(a, b):
+            ctx.table("ded").append((kof(a), kof(b)))
+            return mk(kof(a) + kof(b))
+
+        def uni(a, b):
+            return mk(kof(a) + kof(b))
+
+        def aff(pt):
+            return mk(z3.IntVal(0)) if tuple(pt) == (0, 1) else saved[3](pt)
+        E.double_element, E._add_elements_nonunfied, E.add_elements, E.xform_affine_to_extended = dbl, ded, uni, aff
+        old_bound = Flags.bitlen_bound
+        Flags.bitlen_bound = bits
+        try:
+            out = real(P, n)
+        finally:
+            E.double_element, E._add_elements_nonunfied, E.add_elements, E.xform_affine_to_extended = saved
+            Flags.bitlen_bound = old_bound
+        ctx.data["w"] = (k, n)
+        return kof(out)
+    J.bounds.update(ladder="iterative: every n < 2^%d" % bits)
+    kw = dict(cex=lambda m: dict(x1=1, y1=1, z1=1, x2=1, y2=1, z2=1), oracle="kernels")
+    for r in J.explore(h, max_paths=2 ** (bits + 2) + 50):
+        J.reach(r)
+        if r.kind != "ret":
+            J.claim(r, "bounded ladder run does not raise for n < 2^%d (%s)" % (bits, type(r.value).__name__), False, **kw)
+            continue
+        k, n = r.ctx.data["w"]
+        J.claim(r, "bounded ladder: result is [n]P", r.value == n.t * k, **kw)
+        for (a, b) in r.ctx.table("ded"):
+            c = z3.simplify(z3.substitute(a - b, (k, z3.IntVal(1))))
+            ok = z3.is_int_value(c)
+            J.claim(r, "bounded ladder: dedicated-addition operands differ by a fixed multiple c of P", ok and (a - b == c * k), **kw)
+            if ok:
+                J.claim(r, "bounded ladder: c = %d is not a multiple of L (so by Euclid the difference has order L)" % c.as_long(),
+                        c.as_long() % L != 0, **kw)
+
+
 def job_ladder(J):
     J.default_fallback = ("kernels", dict(x1=1, y1=1, z1=1, x2=1, y2=1, z2=1))
     """induction step of scalarmult_element over abstract points (k = discrete log, prime-order subgroup)"""
@@ -376,9 +457,14 @@ def job_ladder(J):
             if not any(c[0] == "rec" for c in calls):
                 # an iterative ladder (a loop over the bits of n) has no recursive call to put the induction hypothesis on;
                 # proving it needs a loop invariant this job cannot synthesise: undecided, not a violation
-                J.notes.append("scalarmult_element is not the recursive double-and-add this induction step is written for")
-                J.obligations.append(dict(name="ladder step: scalarmult_element has the recursive shape n -> n>>1 (needed for the "
-                                               "induction step; an iterative ladder is outside this job's reach)", verdict="unknown", secs=0.0))
+                J.notes.append("scalarmult_element is not the recursive double-and-add the induction step is written for: "
+                               "bounded run instead (every n below 2^%d over an abstract point)" % LADDER_BITS)
+                try:
+                    _ladder_bounded(J, E, LADDER_BITS)
+                except EngineUnsupported as e:
+                    J.notes.append("bounded ladder run not possible: %s" % e)
+                    J.obligations.append(dict(name="ladder: scalarmult_element has a shape this job can follow (recursive n -> n>>1, "
+                                                   "or a loop over the bits of n built from the curve kernels)", verdict="unknown", secs=0.0))
                 return
             J.claim(r, "ladder step does not raise for 0 <= n < L", False, **kw)
             continue
